@@ -65,6 +65,8 @@ class C07(Prop):
         stack = w["stack"]
         ck = w["client_kwargs"]
         ck["ignore_exc"] = True
+        if (stack == "pooled" or ck.get("use_pooling")) and rng.random() < 0.5:
+            ck["pool_idle_timeout"] = rng.choice([5, 60])
         deser = rng.random() < 0.2
         if deser:
             ck["serde"] = {"$serde": {"kind": "faildeser", "inner": rng.choice([None, {"kind": "pickle"}])}}
@@ -88,6 +90,10 @@ class C07(Prop):
             for i in which:
                 steps.append({"t": "node", "id": i, "health": kind})
             down = which
+        idle = ck.get("pool_idle_timeout")
+        if idle and rng.random() < 0.6:
+            # the pooled connection idles out first: its eviction happens inside the next read
+            steps.append({"t": "advance", "dt": idle + rng.choice([1, 30])})
         read_steps = []
         for _ in range(nreads):
             st = self.read_call(rng, stack, keys)
@@ -196,7 +202,7 @@ class C07(Prop):
 
     def probe_names(self):
         return ("all-servers-down", "deserializer-failed", "fault-in-multi-key-read", "partial-hash-result",
-                "sentinel-default-returned")
+                "sentinel-default-returned", "idle-eviction-during-failing-read")
 
     def probes(self, scn, res):
         p = {}
@@ -204,6 +210,10 @@ class C07(Prop):
         downs = [st for st in scn["steps"] if st["t"] == "node" and st.get("health") != "up"]
         if downs and len(downs) == nn:
             p["all-servers-down"] = 1
+        if scn["world"]["client_kwargs"].get("pool_idle_timeout") and downs and \
+                any(st["t"] == "advance" and st["dt"] > scn["world"]["client_kwargs"]["pool_idle_timeout"]
+                    for st in scn["steps"][:len(scn["steps"]) - 5]):
+            p["idle-eviction-during-failing-read"] = 1
         for c in res.calls:
             for f in c.fired:
                 if f[2] == "deser":
